@@ -490,6 +490,13 @@ impl Task {
                 )))?;
 
                 ctx.back_task(&ctx.task(), &path_tasks)?;
+
+                // going back to a step that is still running, close it before it is redone
+                if !task.state().is_completed() {
+                    ctx.skip_tasks_beneath(&task)?;
+                    task.set_state(TaskState::Backed);
+                    ctx.emit_task(&task)?;
+                }
                 ctx.redo_task(&task)?;
             }
             EventAction::Cancel => {
